@@ -728,4 +728,162 @@ theorem uLoop_spec (hs : 0 < step) (hact : as < ae) (hpre : 0 ≤ pre) (hpost : 
 
 end loops
 
+section assemble
+variable {π : Type} (step pre post as ae : Int)
+
+/-- the declarative bucket of partition start `Q` -/
+def uBucket (elems : Fib Int π) (Q : Int) : Fib Int π :=
+  elems.filter (fun e => inWindow as ae pre post e.1 && decide (Q ∈ activeParts step pre post as ae e.1))
+
+theorem Fev_map_single (ps : List Int) (hnd : ps.Pairwise (· < ·)) (x : Int × π) (Q : Int) :
+    Fev (ps.map (fun P => (P, x))) Q = if Q ∈ ps then [x] else [] := by
+  induction ps with
+  | nil => simp [Fev]
+  | cons P rest ih =>
+    have hp := List.pairwise_cons.1 hnd
+    have e : (P, x) :: rest.map (fun P => (P, x)) = [(P, x)] ++ rest.map (fun P => (P, x)) := rfl
+    rw [List.map_cons, e, Fev_append, ih hp.2]
+    by_cases hq : P = Q
+    · subst hq
+      have : P ∉ rest := fun h => absurd (hp.1 P h) (Int.lt_irrefl _)
+      simp [Fev, this]
+    · have hq' : ¬ Q = P := fun e => hq e.symm
+      simp [Fev, hq, hq', List.mem_cons]
+
+theorem Fev_evs (hs : 0 < step) (elems : Fib Int π) (Q : Int) :
+    Fev (evs step pre post as ae elems) Q = uBucket step pre post as ae elems Q := by
+  induction elems with
+  | nil => simp [evs, Fev, uBucket]
+  | cons x rest ih =>
+    have e : x :: rest = [x] ++ rest := rfl
+    rw [e, evs_append, Fev_append, ih]
+    unfold uBucket
+    rw [List.filter_append]
+    congr 1
+    by_cases hw : inWindow as ae pre post x.1 = true
+    · rw [evs_single_in step pre post as ae x hw,
+        Fev_map_single _ (activeParts_pairwise step pre post as ae hs x.1)]
+      by_cases hm : Q ∈ activeParts step pre post as ae x.1 <;> simp [List.filter_cons, hw, hm]
+    · have hw' : inWindow as ae pre post x.1 = false := by simpa using hw
+      rw [evs_single_out step pre post as ae x hw']
+      simp [Fev, List.filter_cons, hw']
+
+/-- on a candidate partition start the declarative bucket is the `uMemb` filter of the spec -/
+theorem uBucket_cand (hs : 0 < step) (elems : Fib Int π) (P : Int) (hP : P ∈ uCands step as ae) :
+    uBucket step pre post as ae elems P = elems.filter (fun e => uMemb step pre post as ae P e.1) := by
+  unfold uBucket
+  apply filter_congr'
+  intro x _
+  have hc := (mem_uCands step as ae hs P).1 hP
+  unfold uMemb
+  by_cases hw : inWindow as ae pre post x.1 = true
+  · simp only [hw, Bool.true_and]
+    by_cases hm : P ∈ activeParts step pre post as ae x.1
+    · have := (mem_activeParts step pre post as ae hs x.1 P).1 hm
+      simp [hm, this.2.1, this.2.2.1]
+    · have hm' : ¬ (P - pre ≤ x.1 ∧ x.1 < P + step + post) := by
+        intro h
+        exact hm ((mem_activeParts step pre post as ae hs x.1 P).2 ⟨hc.1, h.1, h.2, hc.2.1, hc.2.2⟩)
+      simp only [hm, decide_false]
+      symm
+      simp only [Bool.and_eq_false_iff, decide_eq_false_iff_not]
+      by_cases h1 : P - pre ≤ x.1
+      · right; intro h2; exact hm' ⟨h1, h2⟩
+      · left; exact h1
+  · have hw' : inWindow as ae pre post x.1 = false := by simpa using hw
+    simp [hw']
+
+/-- the spec's (start, bucket) list before `build_elem` -/
+def uSpecB (elems : Fib Int π) : Buckets π :=
+  (uCands step as ae).filterMap (fun P =>
+    let b := elems.filter (fun e => uMemb step pre post as ae P e.1)
+    if b.isEmpty then none else some (P, b))
+
+theorem mem_uSpecB (elems : Fib Int π) (r : Int × Fib Int π) :
+    r ∈ uSpecB step pre post as ae elems ↔
+      r.1 ∈ uCands step as ae ∧ r.2 = elems.filter (fun e => uMemb step pre post as ae r.1 e.1) ∧ r.2 ≠ [] := by
+  unfold uSpecB
+  simp only [List.mem_filterMap]
+  constructor
+  · rintro ⟨P, hP, h⟩
+    by_cases he : (elems.filter (fun e => uMemb step pre post as ae P e.1)).isEmpty = true
+    · simp [he] at h
+    · simp only [he] at h
+      simp only [Bool.false_eq_true, if_false, Option.some.injEq] at h
+      subst h
+      refine ⟨hP, rfl, ?_⟩
+      intro e; apply he; simpa [List.isEmpty_iff] using e
+  · rintro ⟨h1, h2, h3⟩
+    refine ⟨r.1, h1, ?_⟩
+    have : (elems.filter (fun e => uMemb step pre post as ae r.1 e.1)).isEmpty = false := by
+      rw [← h2]; cases h : r.2 with
+      | nil => exact absurd h h3
+      | cons a t => rfl
+    simp only [this, Bool.false_eq_true, if_false, Option.some.injEq]
+    exact Prod.ext rfl h2.symm
+
+theorem uSpecB_repr (hs : 0 < step) (elems : Fib Int π) :
+    Repr (uSpecB step pre post as ae elems) (uBucket step pre post as ae elems) := by
+  refine ⟨?_, ?_, ?_, ?_⟩
+  · unfold Sorted uSpecB
+    rw [List.pairwise_filterMap]
+    apply List.Pairwise.imp _ (uCands_pairwise step as ae hs)
+    intro a b hab x hx y hy
+    by_cases h1 : (elems.filter (fun e => uMemb step pre post as ae a e.1)).isEmpty = true
+    · simp [h1] at hx
+    · by_cases h2 : (elems.filter (fun e => uMemb step pre post as ae b e.1)).isEmpty = true
+      · simp [h2] at hy
+      · simp only [h1, h2, Bool.false_eq_true, if_false, Option.mem_def, Option.some.injEq] at hx hy
+        subst hx; subst hy; exact hab
+  · intro r hr
+    obtain ⟨h1, h2, _⟩ := (mem_uSpecB step pre post as ae elems r).1 hr
+    rw [uBucket_cand step pre post as ae hs elems r.1 h1]; exact h2
+  · intro r hr
+    obtain ⟨h1, h2, h3⟩ := (mem_uSpecB step pre post as ae elems r).1 hr
+    rw [uBucket_cand step pre post as ae hs elems r.1 h1, ← h2]; exact h3
+  · intro Q hQ
+    have hex : ∃ x ∈ elems, Q ∈ activeParts step pre post as ae x.1 := by
+      unfold uBucket at hQ
+      obtain ⟨x, hx⟩ := List.exists_mem_of_ne_nil _ hQ
+      rw [List.mem_filter] at hx
+      simp only [Bool.and_eq_true, decide_eq_true_eq] at hx
+      exact ⟨x, hx.1, hx.2.2⟩
+    obtain ⟨x, _, hm⟩ := hex
+    have hm' := (mem_activeParts step pre post as ae hs x.1 Q).1 hm
+    have hc : Q ∈ uCands step as ae := (mem_uCands step as ae hs Q).2 ⟨hm'.1, hm'.2.2.2.1, hm'.2.2.2.2⟩
+    refine ⟨(Q, elems.filter (fun e => uMemb step pre post as ae Q e.1)), ?_, rfl⟩
+    rw [mem_uSpecB]
+    refine ⟨hc, rfl, ?_⟩
+    show elems.filter (fun e => uMemb step pre post as ae Q e.1) ≠ []
+    rw [← uBucket_cand step pre post as ae hs elems Q hc]; exact hQ
+
+theorem uSpec_eq_map (rel : Bool) (elems : Fib Int π) :
+    uSpec step pre post as ae rel elems =
+      (uSpecB step pre post as ae elems).map
+        (fun b => mkPart rel b.1 (max b.1 as) (min (b.1 + step) ae) b.2) := by
+  unfold uSpec uSpecB
+  rw [List.map_filterMap]
+  apply filterMap_congr'
+  intro P _
+  by_cases h : (elems.filter (fun e => uMemb step pre post as ae P e.1)).isEmpty = true <;> simp [h]
+
+/-- the uniform splitter computes the specification -/
+theorem splitUniformIter_eq (hs : 0 < step) (hact : as < ae) (hpre : 0 ≤ pre) (hpost : 0 ≤ post)
+    (rel : Bool) (elems : Fib Int π) (hsorted : Sorted elems) :
+    splitUniformIter step pre post as ae rel elems = some (uSpec step pre post as ae rel elems) := by
+  obtain ⟨st', h1, h2⟩ := uLoop_spec step pre post as ae hs hact hpre hpost elems [] [] 0
+    (by simpa using hsorted)
+    ⟨List.Pairwise.nil, fun r hr => (by cases hr), fun r hr => (by cases hr),
+     fun Q hQ => (by simp [evs, Fev] at hQ)⟩
+    (Nat.le_refl _) (fun y _ P _ k hk => by simp at hk)
+  simp only [List.nil_append] at h2
+  have h3 : Repr st' (uBucket step pre post as ae elems) :=
+    h2.congr (fun Q => Fev_evs step pre post as ae hs elems Q)
+  have h4 := Repr.unique h3 (uSpecB_repr step pre post as ae hs elems)
+  unfold splitUniformIter
+  rw [h1, uSpec_eq_map, h4]
+  rfl
+
+end assemble
+
 end Ft
